@@ -94,24 +94,39 @@ def toDouble (p q : Nat) : Option (Nat × Int) :=
 def roundDouble (m : Nat) (k : Int) : Nat :=
   if k ≥ 0 then m * 2 ^ k.toNat else roundDiv m (2 ^ (-k).toNat)
 
-/-- `round(float(s))`. -/
-def pyRoundFloat (s : Str) : Except PyExn Int :=
+/-- The two ways `round(float(s))` fails. -/
+inductive FloatErr where
+  | value     -- ValueError: not a float literal, or NaN
+  | overflow  -- OverflowError: infinity
+  deriving DecidableEq, Repr
+
+def FloatErr.toPy : FloatErr → PyExn
+  | .value => .ValueError
+  | .overflow => .OverflowError
+
+def pyRoundFloatE (s : Str) : Except FloatErr Int :=
   match parseFloatLit s with
-  | none => .error .ValueError
-  | some .nan => .error .ValueError
-  | some (.inf _) => .error .OverflowError
+  | none => .error .value
+  | some .nan => .error .value
+  | some (.inf _) => .error .overflow
   | some (.finite neg mant e) =>
     let nd : Int := (Nat.toDigits 10 mant).length
     -- shortcuts that keep huge exponents cheap: 0, certain overflow (≥ 10^309), certain underflow (< 10^-330)
     if mant = 0 then .ok 0
-    else if e + nd > 310 then .error .OverflowError
+    else if e + nd > 310 then .error .overflow
     else if e + nd < -330 then .ok 0
     else
     let (p, q) : Nat × Nat := if e ≥ 0 then (mant * 10 ^ e.toNat, 1) else (mant, 10 ^ (-e).toNat)
     match toDouble p q with
-    | none => .error .OverflowError
+    | none => .error .overflow
     | some (m, k) =>
       let r := roundDouble m k
       .ok (if neg then -(r : Int) else (r : Int))
+
+/-- `round(float(s))`. -/
+def pyRoundFloat (s : Str) : Except PyExn Int :=
+  match pyRoundFloatE s with
+  | .ok n => .ok n
+  | .error e => .error e.toPy
 
 end AioMySensors
